@@ -10,6 +10,8 @@ META = {
         "exactly the width the template prescribes (type size; template size for Fixed; a zero length prefix of the template's "
         "size for Variable), raises MessageSerializationError exactly when unset without default filling, never rewrites bytes "
         "already in the buffer. The BufferWriter / SerializablePrimitive / Struct code underneath is the real code, inlined. "
+        "UDPMessageDeserializer._parse_message_header (not zero-coded): flags, id, offset, acks in order, body with the ack trailer "
+        "snipped (contract shared with C02). "
         "B (bounded, labelled): decode(encode(m)) == m over all 481 templates x block counts x per-type boundary and seeded "
         "values x flags x acks x extra; default-fill of every template; complete check of the (frequency, number) bijection; "
         "pack/unpack pair law sampler. The template-walking loops of serialize/_serialize_block/parse_message_body (dict-of-"
@@ -25,6 +27,8 @@ META = {
 
 def register(reg):
     udp_common.reg_serialize_var(reg, PID)
+    udp_common.reg_parse_header(reg, "C02")
+    reg.fns["hippolyzer.lib.base.message.udpdeserializer:UDPMessageDeserializer._parse_message_header@plain"].also.append(PID)
 
 
 from contracts import c01_native
